@@ -193,6 +193,12 @@ func translateFunc(repo string, fs FuncSpec) (string, error) {
 			list = []ast.Stmt{&ast.ReturnStmt{Results: []ast.Expr{ifCond}}}
 		}
 	}
+	if fs.At != "" {
+		list = findStmt(fset, fd.Body, fs.At)
+		if list == nil {
+			return "", fmt.Errorf("at: no statement starting with `%s` in %s", fs.At, fs.Func)
+		}
+	}
 	body, err := t.stmts(list, 1)
 	if err != nil {
 		return "", err
@@ -733,7 +739,7 @@ func (t *ftr) assign(s *ast.AssignStmt) (string, error) {
 		return fmt.Sprintf("let %s : %s := %s", id.Name, et.lean(), e), nil
 	case token.ASSIGN:
 		vt, ok := t.vars[id.Name]
-		if !ok && t.spec.InIf != "" {
+		if !ok && (t.spec.InIf != "" || t.spec.At != "") {
 			// inif: a variable declared outside the translated branch, first written here
 			if obj := t.info.Uses[id]; obj != nil {
 				if gt, isInt := fromGoType(obj.Type()); isInt && (gt.bool || gt.w != 0) {
